@@ -595,5 +595,40 @@ def memoRun {α β κ : Type} [DecidableEq κ] (key : α → κ) (keep : β → 
     | some b => b :: memoRun key keep f cache qs
     | none => f q :: memoRun key keep f (if keep (f q) then (key q, f q) :: cache else cache) qs
 
+/-! ### the dialer a CONNECT is tunnelled through (`connectHTTP`)
+
+For an `http` / `https` upstream `connectHTTP` builds a `dialvia.HTTPProxyDialer` from the proxy URL
+the proxy function returned for THIS request: the dialer embeds whether TLS is spoken to the proxy,
+the address it dials (`proxyURL.Host`, host and port) and the credentials it sends
+(`proxyURL.User`).  One is built per request; nothing about an upstream is kept between requests. -/
+
+structure Dialer where
+  kind : ProxyKind
+  addr : Bytes                        -- `proxyURL.Host`
+  auth : Option Bytes                 -- `Proxy-Authorization` it sends
+  deriving Repr, DecidableEq
+
+/-- `dialvia.HTTPSProxy(…, proxyURL, …)` for `https`, `dialvia.HTTPProxy(…, proxyURL)` otherwise -/
+def dialerFor (u : ProxyURL) : Dialer :=
+  { kind := if u.scheme == bs "https" then .https else .http, addr := u.host, auth := authValue u }
+
+/-- where a dialer opens its connection to -/
+def Dialer.hop (d : Dialer) : Hop := .viaProxy d.kind d.addr
+
+/-- the dialers of a sequence of CONNECT requests for which the proxy function selected `us`, in
+    order: each request gets the dialer of its own upstream -/
+def connectDialers (us : List ProxyURL) : List Dialer := us.map dialerFor
+
+/-- the counter-model: dialers kept by the instance in a map under `key` and reused -/
+def connectDialersMemo {κ : Type} [DecidableEq κ] (key : ProxyURL → κ) (us : List ProxyURL) : List Dialer :=
+  memoRun key (fun _ => true) dialerFor [] us
+
+/-- a key made of the scheme and the host NAME of the proxy URL (what the dialer's TLS configuration
+    depends on) — without the port -/
+def keySchemeHostname (u : ProxyURL) : Bytes := u.scheme ++ bs "://" ++ hostname u.host
+
+/-- the key that identifies a dialer: everything `dialerFor` reads -/
+def keyFullAddress (u : ProxyURL) : Bytes × Bytes × Option (Bytes × Bytes) := (u.scheme, u.host, u.user)
+
 end C05
 end FwdVerif
